@@ -292,6 +292,7 @@ class FuncTypes:
             if (self.env, self.adds, self.keys) == before:
                 break
         self._fix = False
+        self._rt_cache = {}
         for d in (self.env, self.adds, self.keys):
             for k in list(d):
                 d[k] = _top(d[k])
@@ -322,6 +323,7 @@ class FuncTypes:
             self._bind(t.value, ("list", elem(ty)))
 
     def _scan(self) -> None:
+        self._rt_cache = {}  # reaching-type answers are valid for one round of the fixpoint only
         for n in astq.walk_no_nested(self.fi.node):
             if isinstance(n, ast.Assign):
                 ty = self.of(n.value)
@@ -473,6 +475,17 @@ class FuncTypes:
         """Join of the types of the plain `name = value` definitions that can reach this use; None when that cannot be told."""
         if id(use) in self._busy:
             return None
+        cache = self.__dict__.setdefault("_rt_cache", {})
+        if id(use) in cache:
+            return cache[id(use)]
+        if len(self._busy) > 12:
+            return None  # nested chains of reused names: give up on precision (unknown), never on termination
+        cache[id(use)] = None  # provisional: a cyclic question about the same use reads 'cannot be told'
+        r = self._reaching_type_uncached(use)
+        cache[id(use)] = r
+        return r
+
+    def _reaching_type_uncached(self, use: ast.Name) -> Optional[T]:
         plain, other = self._def_index()
         if use.id in other:
             return None  # bound in another way somewhere: keep the joined (unknown) reading
